@@ -69,6 +69,11 @@ CHECKS = {
    text="Round-trip: every frame of a bounded space (0-2 series per channel with lengths {0,1,2}, time ranges {zero,A,B}, alignments {0, a, contiguous, gapped, equal, earlier domain}, channel subsets incl. variable-length, reversed key order, >12 equal-alignment series) through Encode/Decode and EncodeStream/DecodeStream on codecs over the full and the exact channel set, with and without alignment compression, and on dynamic codecs after 1-3 updates with encoder and decoder 0-2 updates apart and with back-to-back updates; the decoded frame must equal the input up to key order and merging of alignment-contiguous series. Arbitrary bytes: all strings up to length 4 (thorough: 5) over {00,01,02,7f,80,fe,ff} after each of the 64 flag bytes, boundary counts after a valid sequence number, every truncation and every 4-byte-field mutation of valid encodings, and data frames sent to a dynamic codec before any update: Decode must return without panic and allocate at most 64*len+512KiB.",
    note="go1.26.8 toolchain; allocation measured with runtime.MemStats around each Decode; a fatal out-of-memory of the decoder is caught by the re-exec supervisor; the HTTP framer wrapper codec (per WebSocket message type) is not enumerated separately - its high-performance path is the codec decided here.",
    design="3/C08"),
+ "C09": dict(level="exploration", engine="schedx",
+   technique="stateless schedule enumeration (DFS, iterative preemption bounding) of the real cesium code under a controlled scheduler in a synctest bubble with sync/atomic shims; serial-result oracle; replay-twice determinism check; separate free-running -race pass",
+   text="Seven scenarios of 2-3 threads with 1-3 operations each, chosen to collide: at domain level (same channel, disjoint regions) back-fill write || delete spanning two domains; GC || delete splitting a domain that compaction moves; first/last-domain commits || delete; GC || write || read; at cesium level write || delete of an earlier range || read; writers on two index groups; write || delete || GC. All interleavings at mutex/rwmutex/atomic/waitgroup operations of cesium, x and alamos with at most 2 (thorough: 3) preemptions, sharded over 12 processes. Every execution is replayed from its recorded choices (identical trace and outcome required). Oracle: no deadlock, no panic, every operation succeeds, and the content read back in memory and after close+reopen equals the serial result of the same (commuting) operations. The data-race clause is a separate free-running go test -race pass over the same bodies.",
+   note="testing/synctest bubble as quiescence detector; go1.26.8 runtime with determinism patches for select order, map iteration and runtime.rand (overlay generated by bin/mkrt.py); GOMAXPROCS=1; channel operations are not scheduling points (goroutines blocked on channels run when woken); un-instrumented libraries run eagerly; the -race pass is sampling by nature and only reports races whose accesses involve repository code; a time budget that is hit yields exhaustive:false.",
+   design="3/C09"),
 }
 NOT_YET = {}
 props = [json.loads(l) for l in open(os.path.join(HERE, "properties.jsonl"))]
@@ -109,7 +114,7 @@ m = {
    {"name": "seqx", "path": "kit/seqx", "serves_properties": [k for k, v in CHECKS.items() if v["engine"] == "seqx"], "kind_free_text": "explicit-state BFS; the transition function is the real code (fresh instance + replay + one op), dedup on canonical state, reference model compared at every step"},
    {"name": "crashx", "path": "kit/crashx", "serves_properties": [k for k, v in CHECKS.items() if v["engine"] == "crashx"], "kind_free_text": "recording filesystem; every prefix of the mutation log x torn variants of the last write, recovered with the real Open"},
    {"name": "schedx", "path": "kit/schedx", "serves_properties": [k for k, v in CHECKS.items() if v["engine"] == "schedx"], "kind_free_text": "controlled scheduler in a testing/synctest bubble with sync/atomic shims; stateless DFS with iterative preemption bounding, replay-twice determinism check"},
-   {"name": "enumx", "path": "kit/enumx", "serves_properties": [k for k, v in CHECKS.items() if v["engine"] == "enumx"], "kind_free_text": "bounded exhaustive input/program/configuration enumeration against a reference"},
+   {"name": "enumx", "path": "harness/*/c08,c19", "serves_properties": [k for k, v in CHECKS.items() if v["engine"] == "enumx"], "kind_free_text": "bounded exhaustive input/program/configuration enumeration against a reference"},
  ],
  "checks": checks,
  "not_applicable": na,
